@@ -279,6 +279,8 @@ def exec_and_validate(domain, scripts, workdir, module, cfg, events_per_chunk=15
         chunks[i % nchunks].append(s)
     chunks = [c for c in chunks if c]
 
+    iso_found = [0]
+
     def work(ix):
         sp = os.path.join(workdir, "s%03d.ndjson" % ix)
         tp = os.path.join(workdir, "t%03d.ndjson" % ix)
@@ -358,7 +360,13 @@ def exec_and_validate(domain, scripts, workdir, module, cfg, events_per_chunk=15
             # TLC could not evaluate the specification on this trace.  Isolate the script(s)
             # responsible: a recorded execution on which the property-level specification is
             # not even defined is outside what it allows (on the unchanged tree this never happens).
-            n, viol = isolate_uninterpretable(tp, module, cfg, str(e))
+            # (bounded effort: once a handful of such scripts has been isolated in this suite, further
+            # chunks that cannot be evaluated are not bisected any more - the verdict is already known)
+            if iso_found[0] >= 6:
+                n, viol = 0, []
+            else:
+                n, viol = isolate_uninterpretable(tp, module, cfg, str(e))
+                iso_found[0] += sum(1 for x in viol if x["p"] == "*")
         return n, viol + crashes, tp
 
     n_events = 0
